@@ -59,6 +59,8 @@ def _tt(fr):
 PALETTE_KEYS = ['ramp2', 'tab1', 'c05a', 'c05b', 'cm', 'fun1', 'rramp', 'rfun', 'mc', 'mcc', 'seq', 'z0', 'z1', 'mk0', 'mk1',
                 'k32', 'k35', 'k128', 'k70', 'k6', 'k12']
 SMALL_KEYS = ['ramp2', 'tab1', 'z0', 'z1', 'c05a', 'c05b', 'cm', 'fun1', 'mk0', 'mk1', 'rramp', 'rfun', 'mc', 'mcc', 'seq']
+DECIMAL_KEYS = {'d01': ('1/10', '8*t', '1 - 4*t'), 'd03': ('3/10', '2*t', '0.5 - t'), 'd07': ('7/10', 't', '-t/2'),
+                'd13': ('1/3', '2*t', 't'), 'd16': ('1/6', '4*t', '1 - 2*t')}
 MARKER_KEYS = ['z0', 'z1', 'mk0', 'mk1', 'mk0b', 'c05a']
 CONST_LONG = ['k32', 'k35', 'k128', 'k70', 'k6', 'k12']
 
@@ -108,6 +110,10 @@ def palette(key):
     elif key == 'mcc':
         # same values as c05a/c05b but built from two single-channel constants
         wf = both(W.ConstantWaveform(_tt(2), 0.5, 'A'), W.ConstantWaveform(_tt(2), -0.5, 'B'))
+    elif key in DECIMAL_KEYS:
+        # durations that are no binary fractions (exact as TimeType); continuous inside, a jump at the end
+        d, ea, eb = DECIMAL_KEYS[key]
+        wf = both(W.FunctionWaveform(ExpressionScalar(ea), _tt(F(d)), 'A'), W.FunctionWaveform(ExpressionScalar(eb), _tt(F(d)), 'B'))
     elif key == 'z0':
         # marker-like channels: piecewise constant with a leading exact zero (0 -> L once merged with z1)
         wf = const(F(1, 2), 0.0, 0.25)
@@ -192,20 +198,23 @@ def ser_loop(loop, reg):
 _sample_cache = {}      # id(waveform) -> (waveform kept alive, samples); palette waveforms recur in every case
 
 
-def render(loop):
+def render(loop, rate=None):
+    """sampled voltages of the program, leaf by leaf, the way a driver samples each played waveform:
+    `get_sampled(channel, arange(n) / rate)`.  Default grid: STEP (rate 4)."""
     np, L, W, TimeType = _q()
+    rate = int(1 / STEP) if rate is None else int(rate)
     cache = _sample_cache
     if len(cache) > 5000:
         cache.clear()
     pieces = {'A': [], 'B': []}
 
     def sample(wf):
-        k = id(wf)
+        k = (id(wf), rate)
         if k not in cache:
-            n = core.to_frac(wf.duration) / STEP
+            n = core.to_frac(wf.duration) * rate
             if n.denominator != 1:
                 raise core.MachineryError('leaf duration %s off the rendering grid' % wf.duration)
-            t = np.arange(int(n)) * float(STEP)
+            t = np.arange(int(n)) / rate
             cache[k] = (wf, {ch: np.array(wf.get_sampled(ch, t), dtype=float) for ch in ('A', 'B')})
         return cache[k][1]
 
@@ -362,15 +371,70 @@ def op_sx(op):
 _pre = {'key': None}
 
 
+def nested_boundaries(loop):
+    """PF-C06-3 class: exact times (program time) of the piece boundaries inside every composite waveform that
+    is itself a piece of a composite waveform at a non-zero offset.  There the real code decides piece
+    membership of a sample from `t - float(offset)`, which is rounded."""
+    np, L, W, TimeType = _q()
+    out = set()
+
+    def pieces(wf):
+        if isinstance(wf, W.SequenceWaveform):
+            return list(wf.sequenced_waveforms)
+        if isinstance(wf, W.RepetitionWaveform):
+            return [wf._body] * int(wf._repetition_count)
+        return None
+
+    def walk_wf(wf, t0, inside_shifted):
+        ps = pieces(wf)
+        if ps is None:
+            return
+        t = t0
+        for i, p in enumerate(ps):
+            if inside_shifted and i > 0:
+                out.add(t)
+            walk_wf(p, t, inside_shifted or t != t0 or False)
+            t += core.to_frac(p.duration)
+
+    def walk_top(wf, t0):
+        ps = pieces(wf)
+        if ps is None:
+            return
+        t = t0
+        for p in ps:
+            # a piece at local offset 0 sees exact times; a later one sees t - float(offset)
+            walk_wf(p, t, t != t0)
+            t += core.to_frac(p.duration)
+
+    clock = [F(0)]
+
+    def emit(node):
+        for _ in range(int(node.repetition_count)):
+            if len(node) == 0:
+                if node.waveform is not None:
+                    walk_top(node.waveform, clock[0])
+                    clock[0] += core.to_frac(node.waveform.duration)
+            else:
+                for c in node:
+                    emit(c)
+    emit(loop)
+    return out
+
+
+def np_abs(x):
+    return _q()[0].abs(x)
+
+
 def run_case(case):
     """case = {'source':…, 'op':[…]} -> plain-data result (see keys below); never raises for
     behaviour of the implementation, only for harness problems."""
     warnings.simplefilter('ignore')
     source, op = case['source'], case['op']
+    rate = case.get('rate')
     loop = make_program(source)
     if loop is None:
         return {'skip': 'empty-program'}
-    key = json.dumps(source, sort_keys=True)
+    key = json.dumps([source, rate], sort_keys=True)
     if _pre['key'] != key:
         # what only depends on the input program is computed once for all rewrites tried on it
         reg = Registry()
@@ -379,13 +443,25 @@ def run_case(case):
         except Opaque:
             return {'skip': 'opaque-input'}
         reg.frozen = True
-        _pre.update(key=key, reg=reg, tin=tin, before=render(loop))
+        _pre.update(key=key, reg=reg, tin=tin, before=render(loop, rate))
     reg, tin, before = _pre['reg'], _pre['tin'], _pre['before']
     dur_before = core.to_frac(loop.duration)          # also fills the duration caches (PF-06a)
     status, err = 'ok', None
     signal.signal(signal.SIGALRM, _alarm)
     signal.setitimer(signal.ITIMER_REAL, CASE_TIMEOUT)
     try:
+        # a pipeline: the earlier rewrites of the same program (each of them is judged by its own case)
+        for pre_op in case.get('pre', ()):
+            try:
+                apply_op(loop, pre_op)
+                loop.duration
+            except core.MachineryError:
+                raise
+            except _Timeout:
+                raise
+            except Exception:  # noqa
+                signal.setitimer(signal.ITIMER_REAL, 0)
+                return {'skip': 'pipeline-prefix-raised'}
         apply_op(loop, op)
     except _Timeout:
         status = 'timeout'
@@ -399,15 +475,29 @@ def run_case(case):
     if status == 'timeout':
         return res
     try:
-        after = render(loop)
-        res['sampled_equal'] = all(before[ch].shape == after[ch].shape and bool((before[ch] == after[ch]).all())
-                                   for ch in before)
+        after = render(loop, rate)
+        tol = 2.0 ** -30 if case.get('tol') else 0.0     # decimal family: local sample times differ by rounding
+
+        def differ(ch):
+            return before[ch].shape != after[ch].shape or bool((np_abs(before[ch] - after[ch]) > tol).any())
+        res['sampled_equal'] = not any(differ(ch) for ch in before)
+        if not res['sampled_equal'] and case.get('tol') and all(before[ch].shape == after[ch].shape for ch in before):
+            # classify: only samples lying exactly on a piece boundary of a nested, shifted composite waveform differ?
+            bad = set()
+            for ch in before:
+                bad |= set(int(i) for i in (np_abs(before[ch] - after[ch]) > tol).nonzero()[0])
+            nb = {b * int(rate) for b in nested_boundaries(loop)}
+            if bad and all(F(i) in nb for i in bad):
+                res['known_class'] = 'PF-C06-3'
         if not res['sampled_equal']:
-            ch = 'A' if not (before['A'].shape == after['A'].shape and (before['A'] == after['A']).all()) else 'B'
+            ch = 'A' if differ('A') else 'B'
             res['sampled_diff'] = 'channel %s: %d samples before, %d after%s' % (
                 ch, len(before[ch]), len(after[ch]),
                 '' if len(before[ch]) != len(after[ch]) else
-                ', first difference at sample %d' % int((before[ch] != after[ch]).argmax()))
+                ', first difference at sample %d (%r -> %r)' % (
+                    int((np_abs(before[ch] - after[ch]) > tol).argmax()),
+                    float(before[ch][(np_abs(before[ch] - after[ch]) > tol).argmax()]),
+                    float(after[ch][(np_abs(before[ch] - after[ch]) > tol).argmax()])))
     except core.MachineryError as e:
         res['sampled_equal'] = None
         res['sampled_diff'] = str(e)
@@ -415,6 +505,16 @@ def run_case(case):
         res['tout'] = sx(ser_loop(loop, reg))
     except Opaque:
         res['tout'] = None
+    seen, dup = set(), [False]
+
+    def ids(n):
+        if id(n) in seen:
+            dup[0] = True
+        seen.add(id(n))
+        for c in n:
+            ids(c)
+    ids(loop)
+    res['aliased'] = dup[0]          # the same Loop object occurs twice: the result is not a tree
     res['rdur'] = sx(core.to_frac(loop.duration))
     res['rdurs'] = sx(_preorder_durs(loop))
     res['rdepth'] = int(loop.depth())
@@ -716,7 +816,10 @@ def check_cases(ctx, cases, family, judge_only=False):
         if res['status'] == 'timeout' or res.get('tin') is None:
             continue
         opl = sx(op_sx(case['op']))
-        lines.append('(c06 run %s %s)' % (opl, res['tin']))
+        if case.get('pre'):
+            lines.append('(c06 runp %s %s %s)' % (sx([op_sx(o) for o in case['pre']]), opl, res['tin']))
+        else:
+            lines.append('(c06 run %s %s)' % (opl, res['tin']))
         if res.get('tout') is not None:
             if res['status'] == 'ok':
                 lines.append('(c06 judge %s %s (ok %s %s %d %s))' % (opl, res['tin'], res['tout'], res['rdurs'], res['rdepth'],
@@ -736,7 +839,7 @@ def check_cases(ctx, cases, family, judge_only=False):
         if 'skip' in res:
             continue
         opname = case['op'][0]
-        replay = {'kind': 'case', 'source': case['source'], 'op': case['op']}
+        replay = dict(case, kind='case')
         if res['status'] == 'timeout':
             ctx.case(json.dumps(case, sort_keys=True, default=str))
             ctx.count(family + ':' + opname + ':timeout')
@@ -750,6 +853,13 @@ def check_cases(ctx, cases, family, judge_only=False):
         ctx.case(line, nontrivial=changed)
         ctx.count(family + ':' + opname + ':' + (res['status'] if res['status'] == 'ok' else 'error:' + str(res['err'])))
         # 1. sampled voltages
+        if res.get('sampled_equal') is False and res.get('known_class') == 'PF-C06-3' and \
+                any(k.get('finding') == 'PF-C06-3' for k in ctx.findings.for_property('C06')):
+            ctx.count('known:PF-C06-3')
+            ctx.known_finding('PF-C06-3', 'a waveform merged from pieces with non-binary durations plays the end value of the '
+                              'previous piece at a grid sample lying exactly on the boundary of a nested, shifted piece (%s)'
+                              % 'corpus witness: leaf 0.1 x2, leaf 0.1 x2, make_compatible(4, 1, 10): sample 3 is 0.8 instead of 0')
+            continue
         if res.get('sampled_equal') is False:
             found += 1
             ctx.count('violation:%s:%s:sampled-output-changed' % (family, opname))
@@ -775,8 +885,18 @@ def check_cases(ctx, cases, family, judge_only=False):
         if judge_only:
             continue
         # 3. correspondence with the model
+        if res.get('aliased'):
+            ctx.drift('C06 %s: the result is not a tree (the same Loop object occurs more than once)' % opname,
+                      line[:2000], 'aliased nodes', 'a tree')
+            continue
         if model[0] == 'precondition':
+            if case.get('pre'):
+                ctx.count(family + ':' + opname + ':outside-model-domain-after-prefix')
+                continue
             raise core.MachineryError('generator produced a case outside the modelled domain: %s' % line[:300])
+        if model[0] == 'pre-error':
+            ctx.drift('C06 %s: error behaviour of a pipeline prefix' % opname, line[:2000], 'prefix ok', 'prefix raised')
+            continue
         if model[0] == 'err':
             raise core.MachineryError('model rejected %s: %r' % (line[:300], model))
         if model[0] == 'error':
@@ -842,7 +962,7 @@ def check_sfg(ctx, bound):
 def family_exhaustive(ctx):
     rng = ctx.fork('exhaustive')
     quick = ctx.quick
-    trees = exhaustive_trees(5, rng, stride_last=40 if quick else 1)
+    trees = exhaustive_trees(5, rng, stride_last=60 if quick else 1)
     cases = []
     for t in trees:
         for op in ops_for(t, rng, full=not quick or count_nodes(t) <= 3):
@@ -850,14 +970,14 @@ def family_exhaustive(ctx):
     ctx.exhaustive_spaces.append(
         'Loop trees: every shape with <= %d nodes x counts {1,2,3} (leaf kinds / flags rotating), '
         'x flatten depth -1..3, cleanup variants, every unroll / split index, encapsulate, unroll_children, merge, '
-        '(min_len, quantum, rate) triples%s' % (5 if not quick else 4, '' if not quick else '; 5-node trees: every 40th'))
+        '(min_len, quantum, rate) triples%s' % (5 if not quick else 4, '' if not quick else '; 5-node trees: every 60th'))
     return cases
 
 
 def family_random(ctx):
     rng = ctx.fork('random')
     cases = []
-    n = ctx.n(220, 3000)
+    n = ctx.n(180, 3000)
     while n > 0:
         t = random_tree(rng, 40)
         if play_len(t) > 3000:
@@ -872,7 +992,7 @@ def family_random(ctx):
 def family_templates(ctx):
     rng = ctx.fork('templates')
     cases = []
-    n = ctx.n(110, 2200)
+    n = ctx.n(90, 2200)
     nrev = 0
     while n > 0:
         t = random_template(rng)
@@ -915,6 +1035,101 @@ def family_markers(ctx):
     return cases
 
 
+PIPELINES = [
+    [['unroll-children'], ['split', None]],
+    [['unroll-children'], ['split', 0]],
+    [['unroll-children'], ['unroll', 0]],
+    [['unroll-children'], ['unroll', 1]],
+    [['unroll-children'], ['flatten', 1]],
+    [['unroll-children'], ['cleanup', True, True]],
+    [['unroll-children'], ['compat', 4, 1, '2']],
+    [['unroll-children'], ['split', None], ['split', None]],
+    [['unroll-children'], ['split', None], ['flatten', 1]],
+    [['unroll-children'], ['roll', 1, 2, '2'], ['unroll-children']],
+    [['split', None], ['unroll-children'], ['split', None]],
+    [['split', None], ['split', None], ['cleanup', True, True]],
+    [['encapsulate'], ['unroll-children'], ['split', 0]],
+    [['encapsulate'], ['flatten', 0]],
+    [['unroll', 0], ['split', None]],
+    [['unroll', 0], ['flatten', 2], ['cleanup', True, True]],
+    [['cleanup', True, True], ['flatten', 1], ['compat', 4, 2, '2']],
+    [['flatten', 2], ['unroll-children'], ['split', None]],
+    [['flatten', 1], ['roll', 1, 2, '2'], ['compat', 4, 2, '2']],
+    [['roll', 1, 16, '1'], ['compat', 4, 4, '1'], ['flatten', 1]],
+    [['compat', 4, 1, '2'], ['unroll-children'], ['split', None]],
+]
+
+
+def pipeline_cases(tree, pipes):
+    """one case per step >= 2 of every pipeline (step 1 alone is a single-rewrite case of the other families);
+    play / duration are compared with the ORIGINAL program after every step"""
+    out = []
+    valid = tree_valid(tree)
+    for pipe in pipes:
+        if not valid and any(o[0] == 'compat' for o in pipe):
+            continue
+        for k in range(1, len(pipe)):
+            out.append({'source': {'tree': tree}, 'pre': pipe[:k], 'op': pipe[k]})
+    return out
+
+
+def family_pipelines(ctx):
+    """sequences of 2-3 rewrites applied to the same program object (what the hardware back-ends do:
+    Tabor runs unroll_children -> split_one_child, flatten -> make_compatible -> roll ...)"""
+    rng = ctx.fork('pipelines')
+    trees = exhaustive_trees(4, rng)
+    if ctx.quick:
+        trees = [t for i, t in enumerate(trees) if i % 4 == 0 or (t[0] >= 2 and any(c[0] >= 2 for c in t[4]) and i % 2 == 0)]
+    cases = []
+    for t in trees:
+        pipes = PIPELINES if not ctx.quick else PIPELINES[:3] + rng.sample(PIPELINES[3:], 4)
+        cases += pipeline_cases(t, pipes)
+    n = ctx.n(40, 800)
+    while n > 0:
+        t = random_tree(rng, 14)
+        if play_len(t) > 1500:
+            continue
+        n -= 1
+        ops = [o for o in ops_for(t, rng, full=False)]
+        for _ in range(3):
+            pipe = [rng.choice(ops) for _ in range(rng.choice([2, 3]))]
+            cases += pipeline_cases(t, [pipe])
+    ctx.exhaustive_spaces.append('pipelines: %d fixed sequences of 2-3 rewrites on every tree with <= 4 nodes x counts {1,2,3}%s'
+                                 % (len(PIPELINES), ' (quick: a quarter of the trees, 7 sequences each)' if ctx.quick else ''))
+    return cases
+
+
+def family_decimal(ctx):
+    """leaf durations that are no binary fractions (1/10, 3/10, 7/10, 1/3, 1/6; exact as TimeType), repeated
+    leaves that make_compatible merges into one Repetition/SequenceWaveform, output compared on the driver's grid
+    k / rate (integral rate), values up to 2^-30 because local sample times differ by rounding"""
+    cases = []
+    combos = [('d01', 10), ('d01', 20), ('d01', 160), ('d03', 10), ('d03', 40), ('d07', 10), ('d07', 20),
+              ('d13', 3), ('d13', 12), ('d13', 48), ('d16', 6), ('d16', 24)]
+    for key, rate in combos:
+        s = F(DECIMAL_KEYS[key][0]) * rate
+        assert s.denominator == 1
+        s = int(s)
+        for r in (4, 5, 6, 7, 12):
+            trees = [[r, False, False, key, []],
+                     [1, False, False, None, [[r, False, False, key, []]]],
+                     [2, False, False, None, [[r, False, False, key, []], [1, False, False, key, []]]],
+                     [1, False, False, None, [[r, False, False, None, [[1, False, False, key, []]]], [2, False, False, key, []]]]]
+            for t in trees:
+                for op in (['compat', s * r, 1, str(rate)], ['compat', s * 2, s, str(rate)], ['compat', s + 1, 1, str(rate)],
+                           ['flatten', 1], ['unroll-children']):
+                    cases.append({'source': {'tree': t}, 'op': op, 'rate': rate, 'tol': True})
+    mixes = [(['d01', 'd03', 'd07'], 10), (['d13', 'd16'], 6), (['d01', 'd07', 'd03'], 20)]
+    for keys, rate in mixes:
+        for r in (4, 6):
+            t = [r, False, False, None, [[2, False, False, k, []] for k in keys]]
+            for a, b in ((1000, 1), (8, 1), (3, 1)):
+                cases.append({'source': {'tree': t}, 'op': ['compat', a, b, str(rate)], 'rate': rate, 'tol': True})
+            cases.append({'source': {'tree': [1, False, False, None, [t]]}, 'op': ['compat', 8, 1, str(rate)], 'rate': rate, 'tol': True})
+    ctx.exhaustive_spaces.append('decimal durations: %d (leaf, rate) combinations x counts {4,5,6,7,12} x 4 shapes x 5 rewrites' % len(combos))
+    return cases
+
+
 def family_malformed(ctx):
     """inputs outside the happy path: bad indices, leaves as targets, quantum 0, empty loops everywhere"""
     rng = ctx.fork('malformed')
@@ -938,7 +1153,7 @@ def family_malformed(ctx):
 def run(ctx: core.Ctx):
     ctx.rule = ('real Loop trees with real Table/Constant/Function/Reversed/MultiChannel/Sequence waveforms on dyadic values: '
                 '(1) every tree shape with <= 5 nodes x repetition counts {1,2,3} x every rewrite and parameter '
-                '(quick: <= 4 nodes complete, every 40th 5-node tree), (2) random trees with <= 40 nodes incl. volatile '
+                '(quick: <= 4 nodes complete, every 60th 5-node tree), (2) random trees with <= 40 nodes incl. volatile '
                 'counts, measurements, empty loops, already merged leaves, (3) programs created by real pulse templates '
                 '(Table/Constant/Function/Sequence/Repetition/ForLoop/TimeReversal), (4) a malformed stream (bad indices, '
                 'leaf targets, quantum 0, non-integral sample counts). Non-trivial = the rewrite changed the tree or raised; '
@@ -953,8 +1168,9 @@ def run(ctx: core.Ctx):
         replay(ctx, rec, from_corpus=True)
         ctx.corpus_replayed += 1
     check_sfg(ctx, ctx.n(40, 120))
-    fams = [('exhaustive', family_exhaustive), ('markers', family_markers), ('random', family_random),
-            ('templates', family_templates), ('malformed', family_malformed)]
+    fams = [('exhaustive', family_exhaustive), ('markers', family_markers), ('pipelines', family_pipelines),
+            ('decimal', family_decimal), ('random', family_random), ('templates', family_templates),
+            ('malformed', family_malformed)]
     for name, fam in fams:
         cases = fam(ctx)
         check_cases(ctx, cases, name)
@@ -999,7 +1215,8 @@ def replay(ctx: core.Ctx, rec: dict, from_corpus: bool = False) -> bool:
     kind = rec.get('kind')
     before = len(ctx.violations)
     if kind == 'case':
-        check_cases(ctx, [{'source': rec['source'], 'op': rec['op']}], 'corpus' if from_corpus else 'replay')
+        case = {k: rec[k] for k in ('source', 'op', 'pre', 'rate', 'tol') if k in rec}
+        check_cases(ctx, [case], 'corpus' if from_corpus else 'replay')
     elif kind == 'sfg':
         check_sfg(ctx, 0)
     else:
